@@ -136,8 +136,24 @@ fn union_variant_matches_scalar_arg(
     }
 }
 
+/// Compares structurally: a list variant carries the location at which its item type was written,
+/// so the variant of a variable's type is never equal to the variant of an argument's type.
 fn union_contains(union: &UnionTypeAnnotationDeclaration, potential_member: &UnionVariant) -> bool {
-    union.variants.contains(potential_member)
+    union
+        .variants
+        .iter()
+        .any(|member| match (member, potential_member) {
+            (UnionVariant::Scalar(member), UnionVariant::Scalar(potential_member)) => {
+                member == potential_member
+            }
+            (UnionVariant::Plural(member), UnionVariant::Plural(potential_member)) => {
+                variable_type_satisfies_argument_type(
+                    potential_member.item.reference(),
+                    member.item.reference(),
+                )
+            }
+            _ => false,
+        })
 }
 
 pub fn value_satisfies_type<TCompilationProfile: CompilationProfile>(
